@@ -61,6 +61,9 @@ func sbrLogTail() string {
 	return "\n  event log (tail):\n    " + strings.Join(tail, "\n    ")
 }
 
+// OLLAMA_LOAD_TIMEOUT values of the route-level cases: requests that outlast it are frequent with the short ones
+var sbrLoadTimeouts = []string{"", "", "1s", "45s"}
+
 func sbrRun(t *testing.T, c sbrCase, prop string) (info sbrInfo, viol []sbViolation, err error) {
 	sbrInit()
 	setenv := func(k, v string) {
@@ -75,6 +78,8 @@ func sbrRun(t *testing.T, c sbrCase, prop string) (info sbrInfo, viol []sbViolat
 	setenv("OLLAMA_MAX_QUEUE", fmt.Sprint(c.MaxQueue))
 	setenv("OLLAMA_KEEP_ALIVE", sbKeepEnv[c.KeepAlive%len(sbKeepEnv)])
 	setenv("OLLAMA_SCHED_SPREAD", "")
+	setenv("OLLAMA_LOAD_TIMEOUT", sbrLoadTimeouts[c.LoadTimeout%len(sbrLoadTimeouts)])
+	defer os.Unsetenv("OLLAMA_LOAD_TIMEOUT")
 	setenv("OLLAMA_GPU_OVERHEAD", "")
 	setenv("OLLAMA_CONTEXT_LENGTH", "")
 	frHome()
@@ -88,7 +93,7 @@ func sbrRun(t *testing.T, c sbrCase, prop string) (info sbrInfo, viol []sbViolat
 	}
 	e := &sbEngine{flags: map[string]bool{}, prop: prop}
 	e.c = sbCase{MaxRunners: c.MaxRunners, NumParallel: c.NumParallel, MaxQueue: c.MaxQueue, KeepAlive: c.KeepAlive, Inventory: c.Inventory,
-		Room: c.Room, NModels: c.NModels, Gated: c.Gated, AutoFail: c.AutoFail, CloseUs: c.CloseUs, Perturb: c.Perturb}
+		Room: c.Room, NModels: c.NModels, Gated: c.Gated, AutoFail: c.AutoFail, CloseUs: c.CloseUs, CloseErr: c.CloseErr, Perturb: c.Perturb}
 	x := &sbrEngine{e: e, c: c, ew: &sbrErrWriter{}}
 	sbrGinSetup(x.ew)
 	sbPerturbSeed.Store(0)
